@@ -47,6 +47,8 @@ UnFails(r, u) ==
 \cup (IF \A i \in 1..Len(u.probes) : (u.probes[i][3] = 1) = InRect(r, <<u.probes[i][1], u.probes[i][2]>>)
       THEN {} ELSE {"contains"})
 \cup (IF u.pts_logged = 0 \/ u.points = RowMajor(r) THEN {} ELSE {"points"})
+\* points() consumed through count / last / nth / size_hint / fold / skip and with indices beyond 2^32
+\cup (IF u.pts_logged = 0 THEN {} ELSE SeqProtoFails(u.points, u.proto))
 \cup (IF u.rows = <<r[2], r[2] + r[4]>> /\ u.cols = <<r[1], r[1] + r[3]>> THEN {} ELSE {"rows_columns"})
 \cup (IF \A a \in 1..9 : AnchorCOK(r[1], r[3], AnchorXOf(a), u.anchors[a][1]) /\ AnchorCOK(r[2], r[4], AnchorYOf(a), u.anchors[a][2])
       THEN {} ELSE {"anchor_point"})
@@ -72,4 +74,25 @@ UnFails(r, u) ==
            LET p == u.corners[i][1]  q == u.corners[i][2]  res == u.corners[i][3] IN
            res = <<Min(p[1], q[1]), Min(p[2], q[2]), Abs(p[1] - q[1]) + 1, Abs(p[2] - q[2]) + 1>>
       THEN {} ELSE {"with_corners"})
+
+\* resizing far rectangles / to very large sizes (event "xres"): the same statement as ResizeCOK, written with
+\* differences that fit into TLC's 32-bit integers (positions up to +-2^31, sizes up to 2^30; the recorder keeps
+\* only the anchors for which the ideal result is representable).  A result further than 2^30 + 16 from the
+\* original position fails without any arithmetic on it.
+ResizeXOK(pos, len, k, pos2, len2) ==
+  LET l1 == Max(len, 1)  l2 == Max(len2, 1)  L == l2 - l1 IN
+  IF Abs((pos2 \div 2) - (pos \div 2)) > 536870920 THEN FALSE
+  ELSE LET D == pos2 - pos IN
+       CASE k = 0 -> D = 0
+         [] k = 2 -> D = 0 - L                                       \* pos2 + l2 - 1 = pos + l1 - 1
+         [] OTHER -> D >= 0 - ((L + 2) \div 2) /\ D <= (2 - L) \div 2    \* |2 D + L| <= 2
+XResFails(r, items) ==
+  IF \A i \in 1..Len(items) :
+       LET it == items[i]  op == it[1]  w == it[2]  h == it[3]  a == it[4]  res == it[5] IN
+       CASE op = 0 -> /\ res[3] = w /\ res[4] = h
+                      /\ ResizeXOK(r[1], r[3], AnchorXOf(a), res[1], res[3])
+                      /\ ResizeXOK(r[2], r[4], AnchorYOf(a), res[2], res[4])
+         [] op = 1 -> res[3] = w /\ res[4] = r[4] /\ res[2] = r[2] /\ ResizeXOK(r[1], r[3], a, res[1], res[3])
+         [] OTHER  -> res[4] = h /\ res[3] = r[3] /\ res[1] = r[1] /\ ResizeXOK(r[2], r[4], a, res[2], res[4])
+  THEN {} ELSE {"resized_far_or_large"}
 =============================================================================
